@@ -666,15 +666,17 @@ def build_jobs(progs, seed, sets_per_prog, chk, sweep_gaps=0):
             meta = dict(meta, same_linter=same)
             jobs.append({"prog": prog, "plans": plans, "meta": meta, "same_linter": same,
                          "base": base if not any(pl.base_crlf or pl.base_bom for pl in plans) else None})
-        if sweep_gaps and len(prog["files"]) == 1 and infos[0].n <= sweep_gaps and not prog.get("plans") \
-                and (sweep_gaps > 40 or prog["source"].startswith(("docs", "idioms")) or len(jobs) % 3 == 0):
-            jobs.extend(gap_sweep_jobs(prog, infos[0], base))
+        if sweep_gaps and not prog.get("plans"):
+            for fi, info in enumerate(infos):
+                if info.n <= sweep_gaps:
+                    jobs.extend(gap_sweep_jobs(prog, info, base, fi))
     return jobs
 
 
-def gap_sweep_jobs(prog, info, base):
-    """one job: a blank line and a comment line at EVERY admissible gap between the lines of a small single-file program"""
-    return [{"prog": prog, "plans": [E.Plan(info)], "base": base, "same_linter": False, "sweep": True,
+def gap_sweep_jobs(prog, info, base, fi=0):
+    """one job: a blank line and a comment line at EVERY admissible gap between the lines of one file of a program (also the gap
+    just after an opening brace / block header and just before a closing brace / dedent)"""
+    return [{"prog": prog, "plans": [E.Plan(info)], "base": base, "same_linter": False, "sweep": True, "sweep_file": fi,
              "meta": {"label": "gap-sweep", "below_header": False, "kinds": ["insert_blank", "insert_comment"], "same_linter": False}}]
 
 
@@ -683,7 +685,7 @@ def run_gap_sweep(job):
     one Orchestrator (per-file rules only: no finalize phase, so cross-file rules stay silent); a rule that ties two statements
     together by their line distance is caught whatever the gap"""
     prog = job["prog"]
-    f = prog["files"][0]
+    f = prog["files"][job.get("sweep_file", 0)]
     info = job["plans"][0].info
     cm = E.COMMENT[info.lang]
     res = {"keys": {}, "failures": [], "error": None, "n_base": 0, "rules": [], "base_v": [], "new_v": [], "same_linter": False, "variants": 0}
@@ -715,7 +717,9 @@ def run_gap_sweep(job):
                     kind = pl.kinds()[0]
                     rk, ck = explain(rule, fn, cls, a, b, kind, f["lang"], pl)
                     res["keys"].setdefault(f"{rk}|{kind}|{ck}|{f['lang']}", {"rule": rule, "file": fn, "expected": a[:4], "reported": b[:4],
-                                                                            "step": kind, "operations_so_far": [pl.ops]})
+                                                                            "step": kind,
+                                                                            "operations_so_far": [pl.ops if j == job.get("sweep_file", 0) else []
+                                                                                                  for j in range(len(prog["files"]))]})
             res["variants"] = len(variants)
             res["failures"] = drain_failures()
         except Exception as e:  # noqa: BLE001
@@ -812,7 +816,7 @@ def run(tier: str, seed: int, replay: str | None = None) -> int:
         if quick:
             docs = [p for p in docs if r0.random() < 0.5]
         progs = corpus_programs() + docs + gen
-    jobs = build_jobs(progs, seed, sets_per_prog, chk, sweep_gaps=40 if quick else 80)
+    jobs = build_jobs(progs, seed, sets_per_prog, chk, sweep_gaps=90 if quick else 250)
     results = pool_map(run_obs, jobs, procs=8)
     # ---------------------------------------------------------------- observable level
     for job, res in zip(jobs, results):
